@@ -362,4 +362,29 @@ theorem isRetry_iff_retries_or_hedges (c : Counters) (hs : c.attempts = 1 + c.re
     Generated.Execution.isRetryGen c = true ↔ 0 < c.retries + c.hedges := by
   rw [Tie.Execution.tie_isRetry]; simp [isRetry]; omega
 
+/-! ## What listeners are shown as `LastResult` / `LastError`
+
+Every listener of a retry policy is handed the attempt's outcome (`Props/C16.retry_onFailure_events` carries it in the event);
+the policy-level `OnSuccess` / `OnFailure` listeners of breaker and fallback are handed the result they classified, read
+through `LastError()`'s context rule (`Run.seenBy`). -/
+
+/-- the value a listener reads is always the result's -/
+theorem seenBy_val (r : Run) (o : Outcome) : (r.seenBy o).val = o.val := by
+  unfold Run.seenBy; split <;> rfl
+
+/-- an error carried by the result is what the listener reads -/
+theorem seenBy_err (r : Run) (o : Outcome) (e : Err) (h : o.err = some e) : r.seenBy o = o := by
+  unfold Run.seenBy; simp [h]
+
+/-- while nothing is cancelled (no cancellation from outside, not inside a Timeout scope that has fired) a listener reads
+exactly the most recent completed attempt's result and error -/
+theorem seenBy_not_cancelled (r : Run) (o : Outcome) (h1 : r.ext = none) (h2 : r.cancelled = false) : r.seenBy o = o := by
+  unfold Run.seenBy; simp [h1, h2]
+
+/-- the only deviation: a result without an error, read on a copy whose context is done, shows the context's error -/
+theorem seenBy_cancelled (r : Run) (o : Outcome) (h : o.err = none) (hc : r.ext.isSome = true ∨ r.cancelled = true) :
+    r.seenBy o = ⟨o.val, some Err.canceled⟩ := by
+  unfold Run.seenBy
+  rcases hc with hc | hc <;> simp [h, hc]
+
 end Failsafe.Props.C17
